@@ -3,4 +3,5 @@ EXTENDS OtlpRetry
 MCOutcomes == @OUTCOMES@
 MCBackoffs == @BACKOFFS@
 MCStopKinds == @STOPKINDS@
+MCXCfgs == @XCFGS@
 =============================================================================
